@@ -12,7 +12,7 @@
 (*   ThmOmit        RtParse(RtSerOmit(T, OtDefects)) = T  (optional-tag omission is invisible;   *)
 (*                  OtDefects = {}: the intended filter; = listed names: must FAIL = witness)    *)
 EXTENDS RoundTrip, TLC, Json
-CONSTANTS Themes, Extra, Less, TextLen, Export, OtDefects, CheckOmit
+CONSTANTS Themes, Extra, Less, Deep, Deeper, TextLen, Export, OtDefects, CheckOmit
 
 Fr(nd, cx, kids) == [nd |-> nd, cx |-> cx, kids |-> kids]
 Top(st) == st[Len(st)]
@@ -101,7 +101,7 @@ Bound(th) ==
        [] th = "doc" -> 6
        [] th = "text" -> 1
        [] th = "attrs" -> 1
-       [] OTHER -> 3) + (IF th \in {"text", "attrs"} THEN 0 ELSE Extra - Less)
+       [] OTHER -> 3) + (IF th \in {"text", "attrs"} THEN 0 ELSE Extra - Less + (IF th \in Deep THEN 1 ELSE 0) + (IF th \in Deeper THEN 1 ELSE 0))
 
 VARIABLES theme, stack, n
 vars == <<theme, stack, n>>
